@@ -13,6 +13,8 @@ CONSTANTS
     Emit = FALSE
     ValidateLayers = TRUE
     ValidateUrls = TRUE
+    CountSeparator = TRUE
+    WriteEmptyUrlLabels = TRUE
     WholeDigests = TRUE
     UrlIdx = "layer"
     ReaderChecksRef = TRUE
